@@ -423,3 +423,45 @@ Proof.
   - left. split; auto. exists (glob_matches ts pkg). split; auto.
   - right. auto.
 Qed.
+
+Require Import Lia.
+(* ---------- '**' and '***' after a literal prefix ---------- *)
+Definition litc (c : N) : Prop := c <> 63 /\ c <> 42 /\ c <> 91.
+Definition last_prev (a : str) (prev : option N) : option N :=
+  match a with [] => prev | _ => Some (last a 0) end.
+Lemma compile_lit a : forall f prev acc rest, Forall litc a ->
+  glob_compile (List.length a + f) prev acc (a ++ rest) = glob_compile f (last_prev a prev) (List.rev (map TChar a) ++ acc) rest.
+Proof.
+  induction a as [|c a IH]; intros f prev acc rest H; [reflexivity|].
+  inversion H as [|? ? (A & B & C) H']; subst.
+  change (List.length (c :: a) + f)%nat with (S (List.length a + f)). cbn [app].
+  rewrite compile_char by assumption. rewrite IH by exact H'.
+  cbn [map List.rev]. rewrite <- app_assoc. cbn [app]. f_equal.
+  unfold last_prev. destruct a; reflexivity.
+Qed.
+Theorem triple_star_rejected a b : Forall litc a -> glob_new (a ++ 42 :: 42 :: 42 :: b) = Fail EWildcards.
+Proof.
+  intros H. unfold glob_new. rewrite app_length.
+  set (n := List.length (42 :: 42 :: 42 :: b)). replace (S (List.length a + n)) with (List.length a + S n)%nat by lia.
+  rewrite compile_lit by exact H. cbn [glob_compile].
+  change (42 =? 63) with false. change (42 =? 42) with true. cbv iota.
+  cbn [count_stars]. change (42 =? 42) with true. cbv iota. reflexivity.
+Qed.
+Theorem double_star_misplaced a b : Forall litc a ->
+  match b with c :: _ => c <> 42 | [] => True end ->
+  (a <> [] /\ last a 0 <> 47) \/ (exists c r, b = c :: r /\ c <> 47) ->
+  glob_new (a ++ 42 :: 42 :: b) = Fail ERecursive.
+Proof.
+  intros H Hb Hbad. unfold glob_new. rewrite app_length.
+  set (n := List.length (42 :: 42 :: b)). replace (S (List.length a + n)) with (List.length a + S n)%nat by lia.
+  rewrite compile_lit by exact H. cbn [glob_compile].
+  change (42 =? 63) with false. change (42 =? 42) with true. cbv iota.
+  assert (count_stars (42 :: 42 :: b) = 2%nat) as Hc.
+  { cbn [count_stars]. change (42 =? 42) with true. cbv iota. destruct b as [|c r]; [reflexivity|].
+    cbn [count_stars]. destruct (N.eqb_spec c 42); [congruence|reflexivity]. }
+  rewrite Hc. cbn [Nat.ltb Nat.leb Nat.eqb skipn].
+  destruct Hbad as [[Ha Hl]|(c & r & -> & Hc47)].
+  - unfold last_prev. destruct a as [|x a']; [congruence|]. unfold is_sep. destruct (N.eqb_spec (last (x :: a') 0) 47); [congruence|reflexivity].
+  - destruct (match last_prev a None with None => true | Some p => is_sep p end); [|reflexivity].
+    unfold is_sep. destruct (N.eqb_spec c 47); [congruence|reflexivity].
+Qed.
